@@ -54,7 +54,7 @@ def layout_leg(rec, item):
     def body(I):
         for c in st.positivity():
             I.assume(c)
-        I.summarise = {"ReactionProp"}
+        I.summarise = {"ReactionProp", "Poisson"}
         I.check_lib_pre = False
         initialize(I, kind, named_s)
         states = [list(get_state(I, ns, nc))]
